@@ -153,6 +153,21 @@ def events(ctx: Ctx) -> None:
                     ok = cfg.postdominates(loop, X)
                 msg = "compute-end is dispatched (once, when callbacks are given) after the executor returns"
         ctx.ob(ex, sites[0] if sites else ex.node, ok, msg, sel=f"compute:{attr}")
+    # the thread/process executors hand the whole dag and the callbacks to async_map_dag
+    for cls in ("ThreadsExecutor", "ProcessesExecutor"):
+        ed = repo.get(f"{A.RT_LOCAL}.{cls}.execute_dag")
+        ad = repo.get(f"{A.RT_LOCAL}.{cls}._async_execute_dag")
+        inner = [c for c in ed.own_nodes() if isinstance(c, ast.Call) and isinstance(c.func, ast.Attribute) and c.func.attr == "_async_execute_dag"]
+        ok = bool(inner) and all(c.args and unparse(c.args[0]) == "dag" and kwarg(c, "callbacks") is not None and unparse(kwarg(c, "callbacks")) == "callbacks" for c in inner)
+        ctx.ob(ed, inner[0] if inner else None, ok, f"{cls}.execute_dag forwards the dag and the callbacks", sel=f"chain:{cls}:execute_dag", props=["C13", "C07"])
+        am = repo.calls_to(ad, f"{A.RT_ASYNC}.async_map_dag")
+        afl, acfg = flow_of(repo, ad), cfg_of(ad)
+        ok = False
+        if am:
+            c = am[0]
+            dg, cb, par = kwarg(c, "dag"), kwarg(c, "callbacks"), kwarg(c, "compute_arrays_in_parallel")
+            ok = dg is not None and afl.roots(dg, acfg.node_of(c)) == {"param:dag"} and cb is not None and afl.roots(cb, acfg.node_of(c)) == {"param:callbacks"} and par is not None and afl.roots(par, acfg.node_of(c)) == {"param:compute_arrays_in_parallel"}
+        ctx.ob(ad, am[0] if am else None, ok, f"{cls}: async_map_dag receives the whole dag, the callbacks and the parallel flag unchanged", sel=f"chain:{cls}:async_map_dag", props=["C13", "C07"])
     # TaskEndEvent.num_tasks defaults to 1 and local executors never override it
     tee = repo.get(f"{A.RT_TYPES}.TaskEndEvent")
     dflt = None
